@@ -51,6 +51,9 @@ def gen_desc(rng, prop):
     d["preempt"] = rng.random() < 0.8
     # statement-level pre-emption inside helpers.py: off, rare, frequent
     d["line_p"] = rng.choice([0.0, 0.0, 0.02, 0.1, 0.3, 0.6])
+    # a pre-empted process may stay descheduled for simulated time (stalled node), so that
+    # timers of other processes fire while it sits between two statements
+    d["stall_p"] = rng.choice([0.0, 0.1, 0.3, 0.6])
     # simulated processing times: most items are instantaneous, some are slow (stalled worker)
     delays = {}
     if rng.random() < 0.6:
@@ -293,7 +296,7 @@ def execute(prop, desc, rng=None):
     """returns (violation|None, outcome-summary)"""
     out = simulate(desc, rng)
     summ = {"steps": out.sched.steps, "sim_s": out.sched.now, "decisions": list(out.sched.decisions),
-            "line_decisions": list(out.sched.ldecisions), "line_yields": out.sched.line_yields,
+            "line_decisions": list(out.sched.ldecisions), "line_yields": out.sched.line_yields, "line_stalls": out.sched.line_stalls,
             "stats": dict(out.sched.stats), "ledger": list(out.run["ledger"]), "fired": list(out.run["fired"]),
             "tasks": dict(out.tasks), "exc": type(out.exc).__name__ if out.exc is not None else None,
             "hang": out.hang, "trace_digest": digest_obj([(a, b) for _, a, b in out.sched.trace]),
@@ -334,6 +337,7 @@ def run_one(prop, rng, idx):
     counters["scheduling_decisions"] = summ["steps"]
     counters["task_switches"] = summ["stats"]["switches"]
     counters["line_preemptions_in_helpers"] = summ["line_yields"]
+    counters["line_stalls_in_helpers"] = summ["line_stalls"]
     counters["clock_jumps"] = summ["stats"]["clock_jumps"]
     counters["shm_attaches"] = summ["attaches"]
     counters["shm_segments_created"] = summ["segments"]
